@@ -407,8 +407,14 @@ def run_case(case, ctx):
                 _try(lambda: x.resize(signed=not x.signed))          # one size at a time
             elif q < 0.9:
                 _try(lambda: x.resize(n_frac=fd[2]))
-            elif q < 0.95:
+            elif q < 0.93:
                 _try(lambda: x.resize(fd[0], n_frac=fd[2], n_int=max(0, fd[1] - fd[2] - (1 if fd[0] else 0))))
+            elif q < 0.95:
+                # n_int where it does not decide the format (alone, or next to both other sizes): whatever the object becomes, it reports its own sizes
+                _try(lambda: x.resize(n_int=rng.randint(0, 6)))
+                _try(lambda: x.resize(n_word=fd[1], n_frac=fd[2], n_int=rng.randint(0, 6)))
+                keep(_try(lambda: Fxp(x.get_val(), like=x, n_int=rng.randint(0, 6))))
+                keep(_try(lambda: Fxp(0.5, fd[0], fd[1], fd[2], n_int=rng.randint(0, 6))))
             else:
                 # the raw value is kept: it still has to end inside the new word
                 _try(lambda: x.resize(fd[0], max(1, x.n_word - rng.randint(1, 6)), restore_val=False))
